@@ -78,16 +78,20 @@ fn placements(spin: &[String]) -> Vec<(&'static str, Vec<String>, Vec<String>)> 
         ("meta-less", "@<", "|other|", "pmeta < 1"),
         ("meta-index", "@index", "|i|", "pmeta[0]"),
         ("meta-display", "@display", "||", "'{pmeta}'"),
+        ("meta-display-in-list", "@display", "||", "'{[1, pmeta]}'"),
+        ("meta-display-in-map-debug", "@display", "||", "'{{k: (pmeta, 1)}:?}'"),
+        ("meta-less-under-sort", "@<", "|other|", "[pmeta, pmeta].sort()"),
+        ("meta-size-in-unpack", "@size", "||", "match pmeta\n  (pa, pb) then 1\n  else 0"),
         ("meta-call", "@call", "||", "pmeta()"),
         ("meta-iterator", "@iterator", "||", "pmeta.to_tuple()"),
         ("meta-negate", "@negate", "||", "-pmeta"),
     ] {
         let mut d = vec![s("pmeta ="), format!("  {key}: {args}")];
         d.extend(indent(spin, 2));
-        let trig = if name == "meta-less" || name == "meta-add" || name == "meta-index" || name == "meta-negate" || name == "meta-display" {
+        let trig = if name == "meta-less" || name == "meta-add" || name == "meta-index" || name == "meta-negate" || name.starts_with("meta-display") || name == "meta-less-under-sort" {
             vec![format!("pres = {trigger}")]
         } else {
-            vec![trigger.to_string()]
+            trigger.split('\n').map(|l| l.to_string()).collect()
         };
         out.push((name, d, trig));
     }
@@ -374,7 +378,7 @@ pub fn run(args: &Args) -> i32 {
     report.cov("max_timeout_time_over_limit", max_ratio);
     report.cov("terminating_controls", n_controls);
     report.cov("exhaustive", true);
-    report.cov("rule", format!("{} spin shapes x 19 placements x 5 try/catch wrappings x limits {:?} ms; virtual clock: 100 ns per executed instruction (hook H3), tick budget 10 x limit; oracle: ErrorKind::Timeout before virtual time limit x {:.1}, no catch block output, H1 state clean and a probe script runs afterwards; plus terminating controls under 4 limits vs no limit. distinct_nontrivial = distinct (outcome, time/limit decile, spin, top-level?)", spins().len(), limits, 1.0 + slack));
+    report.cov("rule", format!("{} spin shapes x 23 placements x 5 try/catch wrappings x limits {:?} ms; virtual clock: 100 ns per executed instruction (hook H3), tick budget 10 x limit; oracle: ErrorKind::Timeout before virtual time limit x {:.1}, no catch block output, H1 state clean and a probe script runs afterwards; plus terminating controls under 4 limits vs no limit. distinct_nontrivial = distinct (outcome, time/limit decile, spin, top-level?)", spins().len(), limits, 1.0 + slack));
     report.cov("samples", json!([cases[0].3, cases[n_cases / 2].3, cases[n_cases - 1].3]));
     report.assume("virtual time removes only the dependence on host speed: the runtime's own deadline / adaptive interval logic runs unmodified on the virtual Instant; real-time slack on a loaded host is not decided");
     report.assume("spins that stay inside one native call are excluded by the property");
